@@ -16,7 +16,7 @@ AllWs(s) == \A i \in 1..Len(s) : IsWs(s[i])
 StartsWith(s, p) == Len(p) <= Len(s) /\ \A i \in 1..Len(p) : s[i] = p[i]
 EndsWith(s, p) == Len(p) <= Len(s) /\ \A i \in 1..Len(p) : s[Len(s) - Len(p) + i] = p[i]
 OccursAt(s, p, k) == k + Len(p) - 1 <= Len(s) /\ \A i \in 1..Len(p) : s[k + i - 1] = p[i]
-Contains(s, p) == \E k \in 1..(Len(s) + 1) : OccursAt(s, p, k)
+HasInfix(s, p) == \E k \in 1..(Len(s) + 1) : OccursAt(s, p, k)
 
 \* w is one of the maximal whitespace-free runs of s (w itself non-empty, no whitespace)
 IsWord(s, w) ==
